@@ -754,7 +754,7 @@ func (vc *VC) modsOfCall(c *ssa.CallCommon, ms *modSet, depth int, seen map[*ssa
 		}
 	}
 	key := funcKey(callee)
-	if vc.eng.isNoEffect(key) {
+	if vc.eng.isNoEffect(key) || isLockFunc(key) {
 		return
 	}
 	if _, ok := intrinsics[key]; ok {
@@ -1127,6 +1127,10 @@ func (vc *VC) execInstr(fr *Frame, ins ssa.Instruction, st *State) {
 			}
 			if v.T == nil || v.K == KPtr {
 				v.T = ins.Type()
+			}
+			if g, isGlobal := ins.X.(*ssa.Global); isGlobal && v.K == KIface && vc.eng.nonNilGlobals[g.Object()] {
+				vc.assume(st, not(eq(v.If[0], "0")))
+				vc.eng.usedTrusted["package-level error values created by errors.New/fmt.Errorf and never reassigned are non-nil"] = true
 			}
 			fr.regs[ins] = v
 		case token.ARROW:
